@@ -74,7 +74,8 @@ def rand_def_case(rng):
             call += arg + [d] + more
         else:
             arg = rand_balanced(rng, LETTERS + PUNCT + ESC, rng.randint(0, 4))
-            call += [BG] + arg + [EG]
+            # TeX skips blanks in front of an undelimited argument (readArgument does, read_argument in the Model does)
+            call += ([SP] * rng.choice([1, 1, 2]) if rng.random() < 0.3 else []) + [BG] + arg + [EG]
     body = []
     prev_ifx = False
     for _ in range(rng.randint(0, 8)):
@@ -153,7 +154,7 @@ def rand_sig(rng, i):
     if r < 0.7 and np:
         return dict(np=np - 1, opt=True, how={'kind': 'newcommand'})
     if r < 0.78:
-        return dict(np=np, opt=False, how={'kind': 'def', 'csname': True})
+        return dict(np=np, opt=False, how={'kind': 'def', 'csname': rng.choice([True, 'pfx'])})
     return dict(np=np, opt=False, how={'kind': 'def'})
 
 
@@ -186,10 +187,20 @@ def rand_call(rng, ctx, depth, params, callee, allow_delim, callable_ids=None):
     if sig['opt'] and rng.random() < 0.5:
         opt = words(rng, ctx, rng.randint(0, 2))
     how = dict(sig['how'])
-    if rng.random() < 0.15 and not is_delim:
-        how['csname'] = True
+    if rng.random() < 0.2 and not is_delim:
+        # \\csname name\\endcsname, or the name built through a macro-produced prefix: \\csname\\zpfx letters\\endcsname (\\zpfx -> zq)
+        how['csname'] = rng.choice([True, 'pfx'])
     elif 'csname' in how and callee in ctx['alias']:
         how.pop('csname')
+    if 'csname' in how and callee not in ctx['alias']:
+        # the same macro is reached by different routes: plain name, \\csname name, \\csname with the macro-produced prefix
+        route = rng.choice([None, True, 'pfx'])
+        if route is None:
+            how.pop('csname')
+        else:
+            how['csname'] = route
+    if not is_delim and args and rng.random() < 0.3:
+        how['argsep'] = rng.choice([' ', ' ', '  ', '\n'])      # blanks in front of braced undelimited arguments
     return ['call', callee, opt, args, how]
 
 
@@ -288,6 +299,29 @@ def rand_main(rng, ctx, depth, in_group):
                     c = rand_call(rng, ctx, 2, 0, new, True)
                     if c:
                         out.append(c)
+        elif r < 0.70 and r >= 0.62 and not in_group:
+            # the same name redefined with the OTHER definer (a \\def'd name by \\renewcommand, a \\newcommand'd one by \\def; also through a
+            # \\let alias of a \\def macro), same arity, no delimiters, used afterwards
+            cands = [i for i in range(ctx['n']) if not ctx['sigs'][i]['opt'] and not any(ctx['sigs'][i]['how'].get('delims') or [])
+                     and 'csname' not in ctx['sigs'][i]['how']]
+            if cands:
+                i = rng.choice(cands)
+                sig = ctx['sigs'][i]
+                name = i
+                if sig['how']['kind'] == 'def' and rng.random() < 0.3:
+                    name = ctx['next_alias']
+                    ctx['next_alias'] += 1
+                    out.append(['let', name, i])
+                    ctx['callable'].append(name)
+                newkind = 'renewcommand' if sig['how']['kind'] == 'def' else 'def'
+                body = rand_content(rng, ctx, 2, sig['np'], n=rng.randint(1, 3), allow_delim=True, allow_def=False, callable_ids=list(range(i)))
+                out.append(['def', False, name, sig['np'], None, body, {'kind': newkind}])
+                ctx['sigs'][name] = dict(np=sig['np'], opt=False, how={'kind': 'def' if newkind == 'def' else 'newcommand'})
+                ctx['defined'].add(name)
+                for _ in range(rng.randint(1, 2)):
+                    c = rand_call(rng, ctx, 2, 0, name, True)
+                    if c:
+                        out.append(c)
         elif r < 0.62 and ctx['feeders']:
             tgt, fid = rng.choice(ctx['feeders'])
             # only while the target still has its top-level signature and the feeder its top-level body (both are never redefined: ids >= 40
@@ -340,6 +374,55 @@ def calls_with_args(ns):
             if n[0] == 'group' and calls_with_args(n[1]):
                 return True
     return False
+
+
+# ---- printing choices beyond macrolang.Printer ---------------------------------------------------
+
+class Printer2(ML.Printer):
+    """how['argsep']: blanks in front of every braced undelimited argument;  how['csname'] == 'pfx': the name is built by
+    \\csname\\zpfx <letters>\\endcsname where \\zpfx is a macro expanding to the prefix zq of all macro names"""
+    usepfx = False
+
+    def head(self, name, how):
+        if how.get('csname') == 'pfx':
+            self.usepfx = True
+            return '\\csname\\zpfx %s\\endcsname' % ML.letters(name)
+        if how.get('csname'):
+            return '\\csname %s\\endcsname' % ML.mac(name)
+        return '\\%s' % ML.mac(name)
+
+    def node(self, n):
+        k = n[0]
+        if k == 'call':
+            _, name, opt, args, how = n
+            how = how or {}
+            if not how.get('delims') and (how.get('argsep') or how.get('csname') == 'pfx'):
+                s = self.head(name, how) + (('[' + self.nodes(opt) + ']') if opt is not None else '')
+                if not args and opt is None:
+                    return s + '{}'
+                sep = how.get('argsep') or ''
+                return s + ''.join(sep + '{' + self.nodes(a) + '}' for a in args)
+        if k == 'def':
+            _, g, name, np, default, body, how = n
+            how = how or {}
+            if how.get('csname') == 'pfx' and default is None and how.get('kind', 'def') == 'def':
+                delims = how.get('delims') or [''] * (np + 1)
+                hashes = '#' * (2 ** self.depth)
+                pat = delims[0] + ''.join('%s%d%s' % (hashes, i + 1, delims[i + 1]) for i in range(np))
+                self.depth += 1
+                b = self.nodes(body)
+                self.depth -= 1
+                return '\\expandafter\\%s%s%s{%s}' % ('gdef' if g else 'def', self.head(name, how), pat, b)
+        return ML.Printer.node(self, n)
+
+
+def to_source2(prog):
+    p = Printer2()
+    body = p.nodes(prog)
+    cs = ML.counters_used(prog)
+    pre = ''.join('\\newcounter{%s}' % ML.cntname(c) for c in cs) + ''.join(p.pre) + ('\\newcommand{\\zpfx}{zq}' if p.usepfx else '')
+    tail = 'Q' + ''.join('\\arabic{%s}Q' % ML.cntname(c) for c in cs)
+    return pre + body + tail, cs
 
 
 # ---- streams -----------------------------------------------------------------------------------
@@ -425,7 +508,7 @@ def describe(case):
         return dict(tokens=EL.show(case['toks']), source=case.get('src'))
     if case['kind'] == 'print':
         return dict(source=EL.to_source(case['prog'], 'f'))
-    return ML.to_source(case['prog'])[0]
+    return to_source2(case['prog'])[0]
 
 
 def model_input(case):
@@ -548,7 +631,7 @@ def run_impl(case):
             return [-2, 0]
         rest = list(tex.itertokens())
         return [0, obs_tokens(list(toks or []) + rest)]
-    src, cs = ML.to_source(case['prog'])
+    src, cs = to_source2(case['prog'])
     return ML.run_source(src, len(cs))
 
 
